@@ -83,7 +83,7 @@ def run(ctx):
     # 1. exhaustive model check at scale 10^2 with native-integer cross-check
     cfg = "MCFixedPoint.cfg"
     if ctx.thorough:
-        cfg = _cfg(ctx, "MCthorough.cfg", "MCFixedPoint.cfg", [("Range = 14", "Range = 45"), ("RRange = 40", "RRange = 400")])
+        cfg = _cfg(ctx, "MCthorough.cfg", "MCFixedPoint.cfg", [("Range = 10", "Range = 45"), ("RRange = 30", "RRange = 400")])
     ctx.tlc_mc("math", "MCFixedPoint", cfg, workers=4, timeout=1500,
                required_actions=["DoLoad", "DoAdd", "DoSub", "DoMul", "DoDiv", "DoNeg", "DoAbs", "DoCmp", "DoFloor",
                                  "DoCeil", "DoTrunc", "DoRound", "DoPrint"])
@@ -91,7 +91,7 @@ def run(ctx):
     # 2. M1: rounding / printing vectors at small precisions
     gcfg = "GenFixedPoint.cfg"
     if ctx.thorough:
-        gcfg = _cfg(ctx, "GenThorough.cfg", "GenFixedPoint.cfg", [("RRange = 160", "RRange = 1500")])
+        gcfg = _cfg(ctx, "GenThorough.cfg", "GenFixedPoint.cfg", [("RRange = 120", "RRange = 1500")])
     vec = ctx.path("vectors.ndjson")
     ctx.tlc_gen("math", "GenFixedPoint", gcfg, vec, workers=1, timeout=1500)
     res = ctx.path("replay_results.ndjson")
@@ -132,7 +132,7 @@ def run(ctx):
                 len(odd_prints), json.dumps(odd_prints[0])[:200]))
 
     # 3. M3: accumulator runs + rounding/printing at several precisions
-    n, nround = (4000, 2500) if ctx.thorough else (500, 300)
+    n, nround = (8000, 4000) if ctx.thorough else (500, 300)
     tr = ctx.path("trace.ndjson")
     ctx.run_bin(binary, ["fixed-trace", "--seed", ctx.seed, "--n", n, "--rounds", nround, "--out", tr])
     events = vlib.read_ndjson(tr)
